@@ -32,7 +32,8 @@ func genCase(t *rapid.T) Case {
 	}
 	c.Type = e.Name
 	st := []gen.Style{gen.Mixed, gen.SmallDom, gen.SmallDom}[rapid.IntRange(0, 2).Draw(t, "style")]
-	c.Plan = gen.Rows(t, &e.Node, 6, kit.Pick(400, 2000), gen.ValueOpts{Style: st, Leaf: gen.Opts{MaxBytes: 24}})
+	c.Plan = gen.Rows(t, &e.Node, 6, kit.Pick(400, 2000), gen.ValueOpts{Style: st, Leaf: gen.Opts{MaxBytes: 24}, LongLists: 8})
+	c.Plan.Uniq = rapid.IntRange(0, 2).Draw(t, "uniq") == 0
 	nb := rapid.IntRange(0, 4).Draw(t, "nb")
 	for i := 0; i < nb; i++ {
 		c.Batches = append(c.Batches, []int{1, 2, 63, 64, 65, 100, 128, 130, 300}[rapid.IntRange(0, 8).Draw(t, "b")])
@@ -89,7 +90,7 @@ func runCase(c Case, o *kit.Obs) *kit.Failure {
 		return kit.Failf("harness/unknown-type", "type %q not in catalogue", c.Type)
 	}
 	cols := ref.Columns(&e.Node)
-	vs := c.Plan.Expand()
+	vs := c.Plan.ExpandWith(&e.Node)
 	rows := e.New(vs)
 	want := e.Trees(rows) // documented normal form of the Go values
 	wantStreams := ref.ShredRows(&e.Node, want)
